@@ -57,7 +57,7 @@ def run(res):
 
 def _run(res, work):
     broken, oracle_inputs = [], []
-    ok, tlog = common.regen_tables()
+    ok, tlog = common.regen_tables("C13")
     for line in tlog.splitlines():
         if "EXTRACTION FAILED" in line and re.match(r"(Options|OptionsObl):", line):
             broken.append(("translator", line))
